@@ -68,6 +68,14 @@ class Dag:
             return e[1] if idx == 0 else ("ovf", e[1])
         if e[0] == "tuple" and idx < len(e[1]):
             return e[1][idx]
+        if e[0] == "variant" and e[1] == "Continue" and e[2][0] == "call" and e[2][1].endswith("Try::branch") and len(e[2][2]) == 1:
+            # `x?`: the Continue payload of Try::branch(x) is the payload of x's value-carrying variant (Some / Ok)
+            x = e[2][2][0]
+            for vname in ("Some", "Ok"):
+                r = self._field(("variant", vname, x), el)
+                if not (r[0] == "field" and r[2] == ("variant", vname, x)):
+                    return r
+            return ("field", el[1], ("variant", "Some", x))
         if e[0] == "adt" and idx < len(e[2]):
             # field of a just-built struct value (`let p = Pair { a, b }; p.a`): the operand it was built from
             return e[2][idx]
@@ -147,7 +155,12 @@ class Dag:
             path = ts.place_path(self.body, rv[2])
             if path is not None:
                 return ("ref", ts.strip_env(path))
-            return ("ref?", place_str(rv[2]))
+            # no access path relative to self (e.g. an element of a slice a call returned): keep the place as an expression too, so that rules can see
+            # what it is derived from (`&used_streams()[i]`)
+            try:
+                return ("ref?", place_str(rv[2]), self.place(rv[2], depth + 1))
+            except RecursionError:
+                return ("ref?", place_str(rv[2]))
         if k == "Discr":
             return ("discr", self.place(rv[1], depth))
         if k == "Agg":
@@ -212,7 +225,7 @@ def show(e, depth=0):
     if k == "const": return str(e[1])
     if k == "gconst": return str(e[1]).split("::")[-1]
     if k == "param": return e[2]
-    if k == "phi": return f"phi({e[2]})"
+    if k == "phi": return f"phi({e[2]})" if len(e) > 2 else f"phi(_{e[1]})"
     if k == "mem": return "self." + ".".join(e[1])
     if k == "ref": return "&self." + ".".join(e[1])
     if k == "cast": return f"({show(e[2], depth+1)} as {e[1]})"
